@@ -274,4 +274,503 @@ theorem copyPairs_logged (g0 : G) (hard : Bool) (ps : List (Option Nat × Nat)) 
     ps (fun _ h => h) g0 [] ⟨h0, .refl g0, .refl g0⟩
   exact this
 
+/-! ## values: only `val` changes -/
+
+/-- `w'` is `w` up to the values -/
+def ValOnly (w w' : W) : Prop := ∃ f, w' = { w with val := f }
+
+theorem ValOnly.refl (w : W) : ValOnly w w := ⟨w.val, rfl⟩
+theorem ValOnly.trans {a b c : W} (h1 : ValOnly a b) (h2 : ValOnly b c) : ValOnly a c := by
+  obtain ⟨f, rfl⟩ := h1
+  obtain ⟨f', rfl⟩ := h2
+  exact ⟨f', rfl⟩
+
+theorem setValF_val (w : W) : ∀ (n c : Nat) (v : Option Nat) (w' : W),
+    setValF w n c v = some w' → ValOnly w w' := by
+  intro n
+  induction n with
+  | zero => intro c v w' h; simp [setValF] at h
+  | succ n ih =>
+    intro c v w' h
+    unfold setValF at h
+    split at h
+    · cases h
+    · split at h
+      · cases h
+      · cases hr : w.recv c with
+        | none =>
+          simp only [hr, Option.some.injEq] at h; exact ⟨_, h.symm⟩
+        | some r =>
+          simp only [hr] at h
+          cases h1 : setValF w n r v with
+          | none => simp [h1] at h
+          | some w1 =>
+            simp only [h1, Option.some.injEq] at h
+            obtain ⟨f, hf⟩ := ih r v w1 h1
+            subst hf
+            exact ⟨_, h.symm⟩
+
+theorem copyPanel_valOnly (fuel : Nat) (hard : Bool) : ∀ (ps : List (Option Nat × Nat)) (w : W)
+    (log : List (Nat × Option Nat)), ValOnly w (copyPanel fuel hard w ps log).1 := by
+  intro ps
+  induction ps with
+  | nil => intro w log; exact .refl w
+  | cons p ps ih =>
+    intro w log
+    obtain ⟨my, oc⟩ := p
+    unfold copyPanel
+    split
+    · exact ih w log
+    · cases my with
+      | none => dsimp only; split
+                · exact .refl w
+                · exact ih w log
+      | some m =>
+        dsimp only
+        split
+        · split
+          · exact .refl w
+          · exact ih w log
+        · rename_i w' hw'
+          exact (setValF_val w fuel m _ w' hw').trans (ih w' _)
+
+theorem copyPanel_soft (fuel : Nat) : ∀ (ps : List (Option Nat × Nat)) (w : W)
+    (log : List (Nat × Option Nat)), (copyPanel fuel false w ps log).2.2 = false := by
+  intro ps
+  induction ps with
+  | nil => intro w log; rfl
+  | cons p ps ih =>
+    intro w log
+    obtain ⟨my, oc⟩ := p
+    unfold copyPanel
+    split
+    · exact ih w log
+    · cases my with
+      | none => simp [ih]
+      | some m =>
+        dsimp only
+        split
+        · simp [ih]
+        · exact ih _ _
+
+theorem revertVals_valOnly (fuel : Nat) : ∀ (log : List (Nat × Option Nat)) (w : W),
+    ValOnly w (revertVals fuel w log) := by
+  intro log
+  induction log with
+  | nil => intro w; exact .refl w
+  | cons p r ih =>
+    intro w
+    obtain ⟨c, v⟩ := p
+    unfold revertVals
+    split
+    · exact .refl w
+    · rename_i w' hw'
+      exact (setValF_val w fuel c v w' hw').trans (ih w')
+
+theorem copyValues_valOnly (cfg : Cfg) (w : W) (me other : Nat) (hard : Bool) :
+    ValOnly w (copyValues cfg w me other hard).1 := by
+  unfold copyValues
+  have h1 := copyPanel_valOnly cfg.fuel hard (panelPairs w (w.io me).inp (w.io other).inp) w []
+  generalize copyPanel cfg.fuel hard w (panelPairs w (w.io me).inp (w.io other).inp) [] = r1 at h1
+  obtain ⟨w1, log1, f1⟩ := r1
+  cases f1 with
+  | true => exact h1.trans (revertVals_valOnly cfg.fuel log1 w1)
+  | false =>
+    dsimp only
+    have h2 := copyPanel_valOnly cfg.fuel hard (panelPairs w (w.io me).out (w.io other).out) w1 []
+    generalize copyPanel cfg.fuel hard w1 (panelPairs w (w.io me).out (w.io other).out) [] = r2 at h2
+    obtain ⟨w2, log2, f2⟩ := r2
+    cases f2 with
+    | true =>
+      dsimp only
+      have h3 := revertVals_valOnly cfg.fuel log2 w2
+      split
+      · exact (h1.trans (h2.trans h3)).trans (revertVals_valOnly cfg.fuel log1 _)
+      · exact h1.trans (h2.trans h3)
+    | false => exact h1.trans h2
+
+theorem copyValues_soft (cfg : Cfg) (w : W) (me other : Nat) : (copyValues cfg w me other false).2 = true := by
+  unfold copyValues
+  have h1 := copyPanel_soft cfg.fuel (panelPairs w (w.io me).inp (w.io other).inp) w []
+  generalize copyPanel cfg.fuel false w (panelPairs w (w.io me).inp (w.io other).inp) [] = r1 at h1
+  obtain ⟨w1, log1, f1⟩ := r1
+  simp only at h1; subst h1
+  dsimp only
+  have h2 := copyPanel_soft cfg.fuel (panelPairs w (w.io me).out (w.io other).out) w1 []
+  generalize copyPanel cfg.fuel false w1 (panelPairs w (w.io me).out (w.io other).out) [] = r2 at h2
+  obtain ⟨w2, log2, f2⟩ := r2
+  simp only at h2; subst h2
+  rfl
+
+/-! ## `copy_io` -/
+
+/-- what a successful `copy_io` leaves: the graph after the connection loop, values changed -/
+theorem copyIo_ok_shape (cfg : Cfg) (w : W) (me other : Nat) (ch vh : Bool) (w' : W)
+    (h : copyIo cfg w me other ch vh = (w', .ok)) :
+    ∃ f, w' = { w with g := (copyPairs cfg.onlyNewUndo w.g ch (ioPairs w me other) []).1, val := f } := by
+  unfold copyIo at h
+  generalize copyPairs cfg.onlyNewUndo w.g ch (ioPairs w me other) [] = r at h
+  obtain ⟨g', log, fl⟩ := r
+  cases fl with
+  | true => simp at h
+  | false =>
+    dsimp only at h
+    have hv := copyValues_valOnly cfg { w with g := g' } me other vh
+    generalize copyValues cfg { w with g := g' } me other vh = rv at h hv
+    obtain ⟨w2, okv⟩ := rv
+    cases okv with
+    | true =>
+      simp only [Prod.mk.injEq, and_true] at h
+      subst h
+      obtain ⟨f, hf⟩ := hv
+      exact ⟨f, hf⟩
+    | false => simp at h
+
+/-- repaired log, soft values (the way `replace_child` calls it): a failed `copy_io` leaves
+the world as it was -/
+theorem copyIo_atomic_soft (cfg : Cfg) (honly : cfg.onlyNewUndo = true) (w : W) (me other : Nat) (ch : Bool)
+    (hinv : Inv w.g) (herr : (copyIo cfg w me other ch false).2 ≠ .ok) :
+    (copyIo cfg w me other ch false).1 = w := by
+  unfold copyIo at herr ⊢
+  rw [honly] at herr ⊢
+  have hl := copyPairs_logged w.g ch (ioPairs w me other) hinv
+  generalize copyPairs true w.g ch (ioPairs w me other) [] = r at herr hl ⊢
+  obtain ⟨g', log, fl⟩ := r
+  cases fl with
+  | true =>
+    dsimp only at hl ⊢
+    rw [undo_logged hl.2.1 hl.2.2 hl.1]
+  | false =>
+    exfalso
+    dsimp only at herr
+    have hs := copyValues_soft cfg { w with g := g' } me other
+    generalize copyValues cfg { w with g := g' } me other false = rv at herr hs
+    obtain ⟨w2, okv⟩ := rv
+    simp only at hs; subst hs
+    exact herr rfl
+
+/-! ## the ownership pre-check is not overtaken by the removal -/
+
+theorem ancWalk_fewer_parents (t t' : Tree.Tree) (c : Nat)
+    (hsub : ∀ y q, t'.parent y = some q → t.parent y = some q) :
+    ∀ n x, Tree.ancWalk t c n x = .ok → Tree.ancWalk t' c n x = .ok := by
+  intro n
+  induction n with
+  | zero => intro x h; simp [Tree.ancWalk] at h
+  | succ n ih =>
+    intro x h
+    unfold Tree.ancWalk at h ⊢
+    split at h
+    · cases h
+    · rename_i hx
+      simp only [hx, if_false]
+      cases hp' : t'.parent x with
+      | none => rfl
+      | some q =>
+        have := hsub x q hp'
+        simp only [this] at h
+        exact ih q h
+
+theorem adoptRefusal_ok_iff (fuel : Nat) (t : Tree.Tree) (p c : Nat) :
+    adoptRefusal fuel t p c = .ok ↔ (Tree.ancWalk t c fuel p = .ok ∧ t.kind c ≠ .workflow) := by
+  unfold adoptRefusal
+  cases h : Tree.ancWalk t c fuel p <;> simp
+
+theorem adoptPre_ok_iff (fuel : Nat) (t : Tree.Tree) (p c : Nat) :
+    adoptPre fuel t p c = .ok ↔ adoptRefusal fuel t p c = .ok := by
+  unfold adoptPre
+  cases h : adoptRefusal fuel t p c <;> simp
+
+theorem adoptRefusal_after_removal (fuel : Nat) (t : Tree.Tree) (p old new : Nat)
+    (h : adoptRefusal fuel t p new = .ok) :
+    adoptRefusal fuel (swapLabels (Tree.removeCore0 t p old) new old) p new = .ok := by
+  rw [adoptRefusal_ok_iff] at h ⊢
+  refine ⟨ancWalk_fewer_parents t _ new ?_ fuel p h.1, h.2⟩
+  intro y q hy
+  simp only [swapLabels, Tree.removeCore0, updF] at hy
+  split at hy
+  · cases hy
+  · exact hy
+
+theorem commit_ok (cfg : Cfg) (hlp : cfg.linkPrecheck = true) (w : W) (p old new : Nat)
+    (links : List (Nat × Nat))
+    (h : adoptRefusal cfg.fuel (swapLabels (Tree.removeCore0 w.t p old) new old) p new = .ok) :
+    (commit cfg w p old new links).2 = .ok := by
+  unfold commit
+  simp only [h, hlp, if_true]
+
+theorem seated_t (cfg : Cfg) (w : W) (new old : Nat) : (seated cfg w new old).t = w.t := by
+  unfold seated; split <;> rfl
+
+/-- the composite-level replacement with all repairs in place: a refusal leaves the world as
+it was -/
+theorem compReplace_atomic (fuel : Nat) (w : W) (p old new : Nat) (hinv : Inv w.g)
+    (herr : (compReplace (Cfg.repaired fuel) w p old new).2 ≠ .ok) :
+    (compReplace (Cfg.repaired fuel) w p old new).1 = w := by
+  unfold compReplace at herr ⊢
+  by_cases h1 : w.t.parent old ≠ some p
+  · rw [if_pos h1]
+  · rw [if_neg h1] at herr ⊢
+    by_cases h2 : w.t.parent new ≠ none
+    · rw [if_pos h2]
+    · rw [if_neg h2] at herr ⊢
+      by_cases h3 : nodeConnected w new = true
+      · rw [if_pos h3]
+      · rw [if_neg h3] at herr ⊢
+        simp only [Cfg.repaired, if_true] at herr ⊢
+        cases hpre : adoptPre fuel w.t p new with
+        | ok =>
+          simp only [hpre] at herr ⊢
+          cases hl : linksOf w p old new with
+          | error e => rfl
+          | ok links =>
+            simp only [hl] at herr ⊢
+            by_cases h4 : linksValid w links = false
+            · rw [if_pos h4]
+            · rw [if_neg h4] at herr ⊢
+              have hat := copyIo_atomic_soft (Cfg.repaired fuel) rfl w new old true hinv
+              have hsh := copyIo_ok_shape (Cfg.repaired fuel) w new old true false
+              simp only [Cfg.repaired] at hat hsh
+              generalize copyIo ⟨true, true, true, true, true, true, true, fuel⟩ w new old true false = r
+                at herr hat hsh ⊢
+              obtain ⟨w1, e⟩ := r
+              cases e with
+              | ok =>
+                exfalso
+                obtain ⟨f, hf⟩ := hsh w1 rfl
+                apply herr
+                apply commit_ok _ rfl
+                rw [seated_t]
+                have : w1.t = w.t := by rw [hf]
+                rw [this]
+                exact adoptRefusal_after_removal fuel w.t p old new ((adoptPre_ok_iff _ _ _ _).mp hpre)
+              | _ => exact hat (by simp)
+        | _ => rfl
+
+/-! ## frames: what cutting and wiring can touch -/
+
+theorem disconnect1_frame (g : G) (a b x : Nat) (hxa : x ≠ a) (hxb : x ≠ b) :
+    (disconnect1 g a b).conns x = g.conns x := by
+  unfold disconnect1
+  split
+  · dsimp only
+    split <;> simp [updF, hxa, hxb]
+  · rfl
+
+theorem disconnect_frame (g : G) (a : Nat) (bs : List Nat) (x : Nat) (hxa : x ≠ a) (hxb : x ∉ bs) :
+    (disconnect g a bs).conns x = g.conns x := by
+  unfold disconnect
+  induction bs generalizing g with
+  | nil => rfl
+  | cons b bs ih =>
+    simp only [List.foldl_cons]
+    rw [ih _ (fun h => hxb (List.mem_cons_of_mem _ h)),
+      disconnect1_frame g a b x hxa (fun e => hxb (e ▸ List.mem_cons_self ..))]
+
+theorem cutAll_static : ∀ (cs : List Nat) (g : G), SameStatic g (cutAll g cs).1 := by
+  intro cs
+  induction cs with
+  | nil => intro g; exact .refl g
+  | cons c cs ih =>
+    intro g
+    unfold cutAll
+    exact (disconnect_static g c _).trans (ih _)
+
+theorem cutAll_frame : ∀ (cs : List Nat) (g : G) (x : Nat), x ∉ cs → (∀ c ∈ cs, x ∉ g.conns c) →
+    (cutAll g cs).1.conns x = g.conns x := by
+  intro cs
+  induction cs with
+  | nil => intro g x _ _; rfl
+  | cons c cs ih =>
+    intro g x hx hp
+    unfold cutAll
+    dsimp only
+    rw [ih (disconnectAll g c) x (fun h => hx (List.mem_cons_of_mem _ h))
+      (fun c' hc' hm => hp c' (List.mem_cons_of_mem _ hc') (disconnect_subset g c _ c' x hm))]
+    exact disconnect_frame g c _ x (fun e => hx (e ▸ List.mem_cons_self ..)) (hp c (List.mem_cons_self ..))
+
+theorem connect1_frame (g : G) (a b x : Nat) (hxa : x ≠ a) (hxb : x ≠ b) :
+    (connect1 g a b).1.conns x = g.conns x := by
+  rcases connect1_cases g a b with ⟨_, he⟩ | ⟨_, _, he⟩ | ⟨hg, _⟩
+  · rw [he]
+  · rw [he]; simp [updF, hxa, hxb]
+  · rw [hg]
+
+theorem connect_frame (g : G) (a : Nat) (bs : List Nat) (x : Nat) (hxa : x ≠ a) (hxb : x ∉ bs) :
+    (connect g a bs).1.conns x = g.conns x := by
+  induction bs generalizing g with
+  | nil => rfl
+  | cons b bs ih =>
+    unfold connect
+    have h1 := connect1_frame g a b x hxa (fun e => hxb (e ▸ List.mem_cons_self ..))
+    generalize connect1 g a b = r at h1
+    obtain ⟨g', res⟩ := r
+    cases res with
+    | ok => dsimp only; rw [ih g' (fun h => hxb (List.mem_cons_of_mem _ h))]; exact h1
+    | typeErr => exact h1
+    | connErr => exact h1
+
+theorem wire_static (w : W) (up : Nat → List Nat) : ∀ (ns : List Nat) (g : G), SameStatic g (wire w up g ns).1 := by
+  intro ns
+  induction ns with
+  | nil => intro g; exact .refl g
+  | cons n ns ih =>
+    intro g
+    unfold wire
+    split
+    · exact .refl g
+    · rename_i a _
+      have h1 := connect_static g a ((up n).filterMap fun u => sigOut w u "ran")
+      generalize connect g a ((up n).filterMap fun u => sigOut w u "ran") = r at h1
+      obtain ⟨g', res⟩ := r
+      cases res with
+      | ok => exact h1.trans (ih g')
+      | typeErr => exact h1
+      | connErr => exact h1
+
+theorem wire_frame (w : W) (up : Nat → List Nat) (T : List Nat) (x : Nat) (hx : x ∉ T) :
+    ∀ (ns : List Nat) (g : G),
+      (∀ n ∈ ns, ∀ a, sigIn w n "accumulate_and_run" = some a →
+        a ∈ T ∧ ∀ u ∈ up n, ∀ r, sigOut w u "ran" = some r → r ∈ T) →
+      (wire w up g ns).1.conns x = g.conns x := by
+  intro ns
+  induction ns with
+  | nil => intro g _; rfl
+  | cons n ns ih =>
+    intro g hT
+    unfold wire
+    split
+    · rfl
+    · rename_i a ha
+      obtain ⟨haT, hrT⟩ := hT n (List.mem_cons_self ..) a ha
+      have hxb : x ∉ (up n).filterMap fun u => sigOut w u "ran" := by
+        intro hm
+        obtain ⟨u, hu, hr⟩ := List.mem_filterMap.mp hm
+        exact hx (hrT u hu x hr)
+      have h1 := connect_frame g a _ x (fun e => hx (e ▸ haT)) hxb
+      generalize connect g a ((up n).filterMap fun u => sigOut w u "ran") = r at h1
+      obtain ⟨g', res⟩ := r
+      cases res with
+      | ok =>
+        dsimp only
+        rw [ih g' (fun m hm => hT m (List.mem_cons_of_mem _ hm))]; exact h1
+      | typeErr => exact h1
+      | connErr => exact h1
+
+theorem restoreLists_eq (g0 g : G) (T : List Nat) (hs : SameStatic g0 g)
+    (hf : ∀ x, x ∉ T → g.conns x = g0.conns x) : restoreLists g0 g T = g0 := by
+  apply G.eq_of_static (g := g0) (g' := restoreLists g0 g T)
+  · exact ⟨hs.kind, hs.owner, hs.valid⟩
+  · intro x
+    simp only [restoreLists]
+    split
+    · rfl
+    · rename_i hx; exact hf x hx
+
+theorem digraphErr_none (w : W) (nodes : List Nat) : ∀ (ns : List Nat), digraphErr w nodes ns = none →
+    ∀ n ∈ ns, ∀ d ∈ depsOf w n, d ∈ nodes := by
+  intro ns
+  induction ns with
+  | nil => intro _ n hn; cases hn
+  | cons m ms ih =>
+    intro h n hn d hd
+    unfold digraphErr at h
+    split at h
+    · split at h <;> cases h
+    · rename_i hfind
+      split at h
+      · cases h
+      · rcases List.mem_cons.mp hn with rfl | hn'
+        · have := List.find?_eq_none.mp hfind d hd
+          simpa using this
+        · exact ih h n hn' d hd
+
+theorem sameMembers_sub {a b : List Nat} (h : sameMembers a b = true) : ∀ u ∈ a, u ∈ b := by
+  unfold sameMembers at h
+  simp only [Bool.and_eq_true, List.all_eq_true, decide_eq_true_eq] at h
+  exact h.1
+
+theorem mem_cutChans_acc (w : W) (nodes : List Nat) (n a : Nat) (hn : n ∈ nodes)
+    (ha : sigIn w n "accumulate_and_run" = some a) : a ∈ cutChans w nodes := by
+  unfold cutChans
+  exact List.mem_flatMap.mpr ⟨n, hn, by simp [ha]⟩
+
+theorem mem_cutChans_ran (w : W) (nodes : List Nat) (n r : Nat) (hn : n ∈ nodes)
+    (hr : sigOut w n "ran" = some r) : r ∈ cutChans w nodes := by
+  unfold cutChans
+  exact List.mem_flatMap.mpr ⟨n, hn, by simp [hr]⟩
+
+/-- the snapshot taken by the repaired recovery covers everything cutting touches -/
+theorem cut_restore (g : G) (cuts : List Nat) :
+    ∀ x, x ∉ cuts ++ cuts.flatMap g.conns → (cutAll g cuts).1.conns x = g.conns x := by
+  intro x hx
+  apply cutAll_frame cuts g x (fun h => hx (List.mem_append_left _ h))
+  intro c hc hm
+  exact hx (List.mem_append_right _ (List.mem_flatMap.mpr ⟨c, hc, hm⟩))
+
+/-- deriving the execution flow with the repaired recovery: a failure leaves the world as it
+was -/
+theorem dag_atomic (fuel : Nat) (w : W) (p : Nat) (up : Nat → List Nat) (start : List Nat)
+    (herr : (dag (Cfg.repaired fuel) w p up start).2 ≠ .ok) :
+    (dag (Cfg.repaired fuel) w p up start).1 = w := by
+  unfold dag at herr ⊢
+  dsimp only at herr ⊢
+  split
+  · rfl
+  · rename_i hne
+    rw [if_neg hne] at herr
+    have hrec : ∀ e, (dagRecover (Cfg.repaired fuel) w (cutChans w (Tree.vals (w.t.children p)))
+        (cutAll w.g (cutChans w (Tree.vals (w.t.children p)))).1
+        (cutAll w.g (cutChans w (Tree.vals (w.t.children p)))).2 e).1 = w := by
+      intro e
+      simp only [dagRecover, Cfg.repaired, if_true]
+      rw [restoreLists_eq w.g _ _ (cutAll_static _ _) (cut_restore w.g _)]
+    cases hd : digraphErr w (Tree.vals (w.t.children p)) (Tree.vals (w.t.children p)) with
+    | some e => exact hrec e
+    | none =>
+      simp only [hd] at herr ⊢
+      split
+      · exact hrec _
+      · split
+        · rfl
+        · rename_i hup
+          rw [if_neg hup] at herr
+          rename_i hpeel
+          rw [if_neg hpeel] at herr
+          have hst := wire_static w up (Tree.vals (w.t.children p)) (cutAll w.g (cutChans w (Tree.vals (w.t.children p)))).1
+          have hfr : ∀ x, x ∉ cutChans w (Tree.vals (w.t.children p)) ++
+              (cutChans w (Tree.vals (w.t.children p))).flatMap w.g.conns →
+              (wire w up (cutAll w.g (cutChans w (Tree.vals (w.t.children p)))).1 (Tree.vals (w.t.children p))).1.conns x
+                = (cutAll w.g (cutChans w (Tree.vals (w.t.children p)))).1.conns x := by
+            intro x hx
+            apply wire_frame w up _ x hx
+            intro n hn a ha
+            refine ⟨List.mem_append_left _ (mem_cutChans_acc w _ n a hn ha), ?_⟩
+            intro u hu r hr
+            have hall : sameMembers (up n) ((depsOf w n).eraseDups) = true := by
+              have := hup
+              simp only [List.any_eq_true, Bool.not_eq_true', not_exists, not_and] at this
+              have h2 := this n hn
+              simpa using h2
+            have hud : u ∈ depsOf w n := List.mem_eraseDups.mp (sameMembers_sub hall u hu)
+            have hun := digraphErr_none w _ _ hd n hn u hud
+            exact List.mem_append_left _ (mem_cutChans_ran w _ u r hun hr)
+          generalize wire w up (cutAll w.g (cutChans w (Tree.vals (w.t.children p)))).1 (Tree.vals (w.t.children p)) = r
+            at herr hst hfr ⊢
+          obtain ⟨g2, res⟩ := r
+          cases res with
+          | ok =>
+            dsimp only at herr ⊢
+            split
+            · rename_i hs; rw [if_pos hs] at herr; exact absurd rfl herr
+            · rfl
+          | typeErr =>
+            simp only [dagRecover, Cfg.repaired, if_true]
+            rw [restoreLists_eq w.g _ _ ((cutAll_static _ _).trans hst)
+              (fun x hx => (hfr x hx).trans (cut_restore w.g _ x hx))]
+          | connErr =>
+            simp only [dagRecover, Cfg.repaired, if_true]
+            rw [restoreLists_eq w.g _ _ ((cutAll_static _ _).trans hst)
+              (fun x hx => (hfr x hx).trans (cut_restore w.g _ x hx))]
+
 end PwVerif.Edit
